@@ -48,7 +48,7 @@ def _variant_run(v):
 
 class C08:
     id = "C08"
-    quick, thorough = 200, 3000
+    quick, thorough = 400, 8000
     timeout = 180
     rule = ("case = one tree + info options + creator; a base run and 12-16 metamorphic variants, each in its own "
             "forked process: path spellings (absolute, relative from several working directories, ./x, x//y, x/./y, "
@@ -349,7 +349,7 @@ def _apply_fs(op, sandbox):
 
 class C09:
     id = "C09"
-    quick, thorough = 48, 400
+    quick, thorough = 96, 1200
     timeout = 400
     rule = ("case = history of 6-15 steps over {" + OPS_DOC + "} on twin byte-identical sandboxes: every repository "
             "operation runs on sandbox A inside ONE long-lived interpreter and on sandbox B in a FRESH interpreter "
